@@ -4,7 +4,9 @@
 #   3. when the correspondence breaks, a wider system-level search for a concrete failing input.
 import concurrent.futures
 import json
+import os
 import random
+import re
 import vf
 from slices import actor, flow, root, sysrun
 
@@ -54,7 +56,9 @@ def sys_campaign(ck, prop, n, families=None, gated_p=0.6, fail_p=0.25, workers=6
 
 def report_sys(ck, prop, found, limit=3):
     for obs, texts in found[:limit]:
-        ck.violation({'kind': 'system-run', 'what': texts, 'targets': obs['targets'], 'roots': obs['roots'],
+        ck.violation({'kind': 'watch-scenario' if obs.get('outcome') == 'watch' else 'system-run', 'plan': obs.get('plan'),
+                      'when': obs.get('when'), 'signal': obs.get('signal'), 'watch': obs.get('watch'),
+                      'what': texts, 'targets': obs['targets'], 'roots': obs['roots'],
                       'failing_scripts': obs['fail'], 'gated': obs['gated'], 'observed_trace': obs['trace'],
                       'dependencies_declared_through_X.output': obs.get('dependencies_declared_through_X.output'),
                       'second_run': obs.get('second_run'),
@@ -129,3 +133,116 @@ def check_engine(ck, prop, projection, what, n_actor_quick=400, n_sys_quick=24, 
                           'difference': rdiffs[0], 'n_differences': len(rdiffs),
                           'searched': 'system-level scenarios found no violation of the property'}, found_input=False)
     return diffs + rdiffs + fdiffs, found
+
+
+# ------------------------------------------------------------------------------------------------------------ replay
+def replay(ck, prop, path, run):
+    """Re-executes the input of a replay file written by an engine check: the recorded graph / requested targets / failing
+    scripts / completion order on the real binary (several attempts: the interleaving is the runtime's), the recorded case line
+    of a broken correspondence through model and implementation, the recorded plan of a watch scenario. Falls back to the whole
+    check when the file does not carry a re-executable input (proof status, big generated graphs recorded by family/size)."""
+    import signal as _signal
+    from slices import watchrun
+    try:
+        rep = json.load(open(path))
+    except Exception as e:
+        vf.log('[%s] replay file unreadable (%r): running the whole check' % (prop, e))
+        return run(ck)
+    kind = rep.get('kind', '')
+    r = random.Random(ck.rng.getrandbits(48))
+    T = rep.get('targets')
+    plain_graph = isinstance(T, dict) and T and all(isinstance(v, dict) and 'kind' in v and 'deps' in v for v in T.values())
+    attempts = 5
+    if kind.startswith('system-run') and plain_graph and rep.get('when') and rep.get('signal'):
+        ck.rule('replay: the recorded graph, instant and signal on the real binary, up to %d attempts' % attempts)
+        for i in range(attempts):
+            if str(rep['when']).startswith('mid-build'):
+                obs, V = sysrun.watch_signal_midbuild(r, tag='%s_rp%d' % (prop, i))
+            else:
+                obs, V = sysrun.signal_scenario(r, T, rep['roots'], rep['when'], getattr(_signal, rep['signal']), tag='%s_rp%d' % (prop, i),
+                                                watch=bool(rep.get('watch')))
+            ck.count(('replay', i), sample={'attempt': i, 'verdicts': V})
+            if prop in V:
+                o = dict(obs)
+                o.update({'outcome': 'signal', 'fail': [], 'gated': True, 'stderr_tail': ''})
+                report_sys(ck, prop, [(o, V[prop])])
+                return
+        vf.log('[%s] replay: the property held on the recorded input in %d attempts' % (prop, attempts))
+        return
+    if kind.startswith('system-run') and plain_graph and 'roots' in rep:
+        fail = rep.get('failing_scripts') or {}
+        if isinstance(fail, list):
+            fail = {t: 1 for t in fail}
+        prefer = [x[1] for x in (rep.get('observed_trace') or []) if x and x[0] == 'end']
+        ck.rule('replay: the recorded graph, requested targets, failing scripts, X.output edges and completion order on the real '
+                'binary, up to %d attempts' % attempts)
+        for i in range(attempts):
+            obs, V = sysrun.oneshot(r, T, rep['roots'], fail=fail, gated=bool(rep.get('gated', True)), tag='%s_rp%d' % (prop, i),
+                                    pre_args=tuple(rep.get('arguments_before_targets') or ()),
+                                    implied_edges=rep.get('dependencies_declared_through_X.output') or [],
+                                    prefer=prefer if i < 3 else None, hold_s=0.0 if i % 2 == 0 else 0.3)
+            ck.count(('replay', i), sample={'attempt': i, 'trace': obs['trace'][:12], 'verdicts': V})
+            if prop in V:
+                report_sys(ck, prop, [(obs, V[prop])])
+                return
+        vf.log('[%s] replay: the property held on the recorded input in %d attempts' % (prop, attempts))
+        return
+    if kind == 'correspondence' and isinstance(rep.get('difference'), dict):
+        dif = rep['difference']
+        line = None
+        text = dif.get('replay', '')
+        if 'hinted line: ' in text:
+            line = text.split('hinted line: ', 1)[1].strip()
+        elif dif.get('case', '').startswith('W '):
+            line = dif['case']
+        if line:
+            mode = {'A': 'actor', 'R': 'root', 'W': 'flow'}.get(line[:1])
+            if mode in ('actor', 'root'):
+                d = vf.scratch_dir('%s_rp' % prop)
+                hf = os.path.join(d, 'impl.txt')
+                mf = os.path.join(d, 'model.txt')
+                open(hf, 'w').write(line + '\n')
+                open(mf, 'w').write(' '.join(tok.split('@')[0] for tok in line.split(' ')) + '\n')
+                model = vf.by_id(vf.run_model(mode, mf))
+                rc, out, err = vf.run_impl(mode, hf, env={'ZINOMA_VERIF_SCRATCH': os.path.join(d, 'run')})
+                impl = vf.by_id(out)
+                cid = line.split(' ')[1]
+                m = re.sub(r' hint=\S+', '', model.get(cid, 'MISSING').split(' #bd=')[0])
+                ii = impl.get(cid, 'MISSING')
+                ck.rule('replay: the recorded case line through the extracted model and the real code')
+                ck.count(('replay', line), sample={'case': line, 'model': m, 'implementation': ii})
+                if m != ii:
+                    ck.violation({'kind': 'correspondence', 'correspondence': rep.get('correspondence'),
+                                  'difference': {'case': line, 'model': m, 'implementation': ii, 'replay': text}}, found_input=False)
+                else:
+                    vf.log('[%s] replay: model and implementation agree on the recorded case' % prop)
+                vf.sh(['rm', '-rf', d])
+                return
+    if kind == 'watch-scenario' and isinstance(T, dict) and rep.get('plan') is not None:
+        ck.rule('replay: the recorded watch graph and change plan on the real binary, up to 3 attempts')
+        for i in range(3):
+            obs, V, known = watchrun.scenario(r, T, rep['roots'], bool(rep.get('gated', True)), [tuple(x) for x in rep['plan']],
+                                              tag='%s_rp%d' % (prop, i))
+            ck.count(('replay', i), sample={'attempt': i, 'verdicts': V, 'known': known})
+            for fid, text in known:
+                ck.violation({'kind': 'watch-scenario', 'what': text, 'targets': obs['targets'], 'roots': obs['roots'], 'plan': obs['plan'],
+                              'observed_trace': obs['trace']}, found_input=True, finding_id=fid)
+            if prop in V:
+                for text in V[prop]:
+                    ck.violation({'kind': 'watch-scenario', 'what': text, 'targets': obs['targets'], 'roots': obs['roots'],
+                                  'plan': obs['plan'], 'gated': obs['gated'], 'observed_trace': obs['trace']}, found_input=True)
+                return
+            if known:
+                return
+        vf.log('[%s] replay: the property held on the recorded scenario in 3 attempts' % prop)
+        return
+    if kind == 'real-watcher' and rep.get('operations'):
+        ck.rule('replay: the recorded file operations through the real watcher')
+        obs, V = watchrun.filter_scenario(r, tag='%s_rp' % prop, ops=list(rep['operations']))
+        ck.count(('replay', tuple(obs['ops'])), sample={'operations': obs['ops'], 'verdicts': V})
+        for text in V.get('C16', []):
+            ck.violation({'kind': 'real-watcher', 'what': text, 'operations': obs['ops']}, found_input=True)
+        return
+    vf.log('[%s] the replay file carries no re-executable input of a kind known to the engine replayer (%s): running the whole check'
+           % (prop, kind or 'no kind'))
+    return run(ck)
